@@ -122,7 +122,9 @@ def parseEvent (s : String) (ncli nres : Nat) : Option Event :=
   | ["rst", c, n] => do let c ← c.toNat?; let n ← n.toNat?; if c < ncli then some (.rst c n) else none
   | ["err", r, b] => do
     let r ← r.toNat?; let b ← b.toNat?
-    if r < nres ∧ b ≤ 1 then some (.err r (b == 1)) else none
+    -- b = 1: 4.04, b = 2: 5.03, b = 3: 5.00 — every code of class ≥ 4 is "an error response" (RFC 7641 §4.2: a non-2.xx
+    -- response ends the observation); M's event only knows whether the handler answers with an error
+    if r < nres ∧ b ≤ 3 then some (.err r (b != 0)) else none
   | ["lost", c] => do let c ← c.toNat?; if c < ncli then some (.lost c) else none
   | ["del", r] => do let r ← r.toNat?; if r < nres then some (.del r) else none
   | _ => none
